@@ -698,7 +698,9 @@ private:
     apply(const Key &/*key*/, const Value &x, const Value &y) override {
       Value z = x.operator&(y);
       if (z.is_bottom()) {
-        return {true, boost::optional<Value>()};
+        // Bottom means the empty set here, not failure: the key has
+        // no pair left, the other keys keep theirs.
+        return {false, boost::optional<Value>()};
       } else {
         return {false, boost::optional<Value>(z)};
       }
